@@ -277,7 +277,7 @@ func (e *Env) equal(l, r SV) *Term {
 	if lt.Sort != rt.Sort {
 		e.fail("comparison of different sorts %s and %s", lt.Sort, rt.Sort)
 	}
-	return B.Eq(lt, rt)
+	return e.x.termEq(lt, rt)
 }
 
 func (e *Env) selector(n *SNode) SV {
@@ -466,6 +466,25 @@ func (e *Env) call(n *SNode) SV {
 	case "cap":
 		a := e.eval(n.Args[0])
 		return svTerm(a.V.L[3])
+	case "has":
+		// has(m, k): key k is present in map m
+		a := e.eval(n.Args[0])
+		name, ks, _ := x.mapHeapNames(a.V.T)
+		if ks == nil {
+			e.fail("has() on a map with aggregate keys")
+		}
+		hh := x.heapRead(e.st, name+"#has", ArraySort(IntSort, ArraySort(ks, BoolSort)))
+		return svTerm(B.And(B.Neq(a.V.One(), B.Int(0)), B.Select(B.Select(hh, a.V.One()), argT(1))))
+	case "ifacelen":
+		// length of a slice boxed in an interface value (e.g. sort.Slice's argument)
+		a := e.eval(n.Args[0])
+		if bv, ok := x.boxed[a.V.L[1]]; ok && len(bv.L) == 4 {
+			return svTerm(bv.L[2])
+		}
+		d := B.DeclFunc("ifacelen", []*Sort{IntSort}, IntSort)
+		r := B.App(d, a.V.L[1])
+		x.assumeGlobal(B.Le(B.Int(0), r), "len >= 0")
+		return svTerm(r)
 	case "ite":
 		c := e.Bool(n.Args[0])
 		l, r := e.eval(n.Args[1]), e.eval(n.Args[2])
@@ -526,8 +545,17 @@ func (e *Env) call(n *SNode) SV {
 			e.fail("unknown type %q in typeis", name)
 		}
 		return svTerm(B.Eq(a.V.L[0], id))
+	case "typeid":
+		id, ok := x.typeIDByShortName(n.Args[0].Name)
+		if !ok {
+			e.fail("unknown type %q in typeid", n.Args[0].Name)
+		}
+		return svTerm(id)
 	case "strlit":
 		return svTerm(x.strLit(n.Args[0].Name))
+	}
+	if sp, ok := x.W.Specs.StrPreds[n.Name]; ok {
+		return svTerm(x.strPredApp(sp, argT(0)))
 	}
 	if sf, ok := x.W.Specs.Funcs[n.Name]; ok {
 		var args []SV
@@ -540,11 +568,33 @@ func (e *Env) call(n *SNode) SV {
 	return SV{}
 }
 
+func isGoSort(s string) bool { return strings.ContainsAny(s, "*.[") }
+
 func (e *Env) callSpec(sf *SpecFunc, args []SV) SV {
 	x := e.x
 	B := x.B
 	if len(args) != len(sf.Params) {
 		e.fail("spec function %s expects %d arguments", sf.Name, len(sf.Params))
+	}
+	if sf.Body != nil && !sf.Rec {
+		// macro expansion; Go-typed parameters are passed as they are
+		ne := &Env{x: x, st: e.st, old: e.old, vars: map[string]SV{}, pkg: e.pkg}
+		for i, p := range sf.Params {
+			if isGoSort(sf.PSorts[i]) {
+				if args[i].V == nil && !args[i].Nil {
+					e.fail("argument %d of %s must be a Go value of type %s", i, sf.Name, sf.PSorts[i])
+				}
+				ne.vars[p] = args[i]
+				continue
+			}
+			t := e.term(args[i])
+			want := e.sortByName(sf.PSorts[i])
+			if t.Sort != want {
+				e.fail("argument %d of %s has sort %s, want %s", i, sf.Name, t.Sort, want)
+			}
+			ne.vars[p] = svTerm(t)
+		}
+		return ne.eval(sf.Body)
 	}
 	var ts []*Term
 	for i, a := range args {
@@ -554,14 +604,6 @@ func (e *Env) callSpec(sf *SpecFunc, args []SV) SV {
 			e.fail("argument %d of %s has sort %s, want %s", i, sf.Name, t.Sort, want)
 		}
 		ts = append(ts, t)
-	}
-	if sf.Body != nil && !sf.Rec {
-		// macro expansion
-		ne := &Env{x: x, st: e.st, old: e.old, vars: map[string]SV{}, pkg: e.pkg}
-		for i, p := range sf.Params {
-			ne.vars[p] = svTerm(ts[i])
-		}
-		return ne.eval(sf.Body)
 	}
 	var as []*Sort
 	for _, s := range sf.PSorts {
@@ -597,6 +639,13 @@ func (w *World) typeByShortName(name string) (types.Type, bool) {
 	}
 	idx := strings.LastIndex(name, ".")
 	if idx < 0 {
+		if obj, ok := types.Universe.Lookup(name).(*types.TypeName); ok {
+			var t types.Type = obj.Type()
+			if ptr {
+				t = types.NewPointer(t)
+			}
+			return t, true
+		}
 		return nil, false
 	}
 	pkgName, tname := name[:idx], name[idx+1:]
